@@ -4,6 +4,7 @@ use std::fmt::Display;
 use std::fmt::Formatter;
 use std::io::Cursor;
 use std::sync::Arc;
+use std::sync::Mutex;
 use std::sync::OnceLock;
 use std::time::Duration;
 
@@ -449,16 +450,20 @@ impl Ord for CipherKey {
     }
 }
 
-static CACHE: OnceLock<LruCache<CipherKey, CipherMethod>> = OnceLock::new();
+static CACHE: OnceLock<Mutex<LruCache<CipherKey, Arc<CipherMethod>>>> = OnceLock::new();
 
-unsafe fn get_cipher(kind: CipherKind, key: &[u8], session_id: u64) -> &CipherMethod {
-    let cache = CACHE.get_or_init(|| LruCache::with_expiry_duration_and_capacity(Duration::from_secs(30), 102400));
-    let cache = unsafe { std::ptr::from_ref(cache).cast_mut().as_mut().expect("empty cipher cache") };
+// every datagram of every flow comes through here, from any worker thread of the runtime
+unsafe fn get_cipher(kind: CipherKind, key: &[u8], session_id: u64) -> Arc<CipherMethod> {
+    let cache = CACHE.get_or_init(|| Mutex::new(LruCache::with_expiry_duration_and_capacity(Duration::from_secs(30), 102400)));
+    let mut cache = cache.lock().unwrap_or_else(|e| e.into_inner());
     let key_ptr = key.as_ptr() as usize;
-    cache.entry(CipherKey { kind, key: key_ptr, session_id }).or_insert_with(|| {
-        debug!("[udp] new cache cipher {}|{}|{}", kind, key_ptr, session_id);
-        udp::new_cipher(kind, key, session_id)
-    })
+    cache
+        .entry(CipherKey { kind, key: key_ptr, session_id })
+        .or_insert_with(|| {
+            debug!("[udp] new cache cipher {}|{}|{}", kind, key_ptr, session_id);
+            Arc::new(udp::new_cipher(kind, key, session_id))
+        })
+        .clone()
 }
 
 #[cfg(test)]
